@@ -161,6 +161,42 @@ Proof.
   lra.
 Qed.
 
+(** a function whose derivative is <= 0 before m and >= 0 after m (on [a,b]) is minimal at m *)
+Lemma local_min_of_sign_change (f f' : R -> R) a b m :
+  a <= m <= b -> (forall c, a <= c <= b -> derivable_pt_lim f c (f' c)) ->
+  (forall c, a <= c < m -> f' c <= 0) -> (forall c, m < c <= b -> 0 <= f' c) ->
+  forall t, a <= t <= b -> f m <= f t.
+Proof.
+  intros Hm Hd Hneg Hpos t Ht.
+  destruct (Rtotal_order t m) as [L|[E|G]].
+  - destruct (MVT_cor2 f f' t m L) as [c [Hc1 Hc2]].
+    { intros c Hc. apply Hd. lra. }
+    assert (f' c <= 0) by (apply Hneg; lra). nra.
+  - subst. lra.
+  - destruct (MVT_cor2 f f' m t G) as [c [Hc1 Hc2]].
+    { intros c Hc. apply Hd. lra. }
+    assert (0 <= f' c) by (apply Hpos; lra). nra.
+Qed.
+
+(** sign chain used by the bracket search: same strict sign on [a,m], sign change on [m,b] *)
+Lemma sign_chain x y z : 0 < x * y -> y * z <= 0 -> x * z <= 0.
+Proof.
+  intros H1 H2.
+  destruct (Rle_dec (x * z) 0) as [|N]; [assumption|exfalso].
+  assert (0 < x * z) by lra.
+  assert (0 < (x * y) * (x * z)) by (apply Rmult_lt_0_compat; assumption).
+  assert (E : (x * y) * (x * z) = (x * x) * (y * z)) by ring.
+  assert (0 <= x * x) by nra. nra.
+Qed.
+Lemma sign_chain_pos x y z : 0 < x * y -> 0 < y * z -> 0 < x * z.
+Proof.
+  intros H1 H2.
+  assert (P : 0 < (x * y) * (y * z)) by (apply Rmult_lt_0_compat; assumption).
+  assert (E : (x * y) * (y * z) = (y * y) * (x * z)) by ring.
+  assert (0 <= y * y) by nra.
+  destruct (Rlt_dec 0 (x * z)); [assumption|exfalso]. nra.
+Qed.
+
 (** * 3. Template model: detonation branch and Jouguet velocity (cb2 = cb^2, alpha = alN) *)
 
 Lemma tvJ_root_poly c a S : S ^ 2 = 3 * a * (1 - c ^ 2 + 3 * c ^ 2 * a) ->
